@@ -447,6 +447,7 @@ type DAGOpts struct {
 	Wide        bool // manifests with many layers (contended permits)
 	FewBytes    bool // blobs drawn from three byte strings only (aliases under several media types)
 	EmbMeta     bool // index children may carry annotations / artifactType on the embedding descriptor
+	URLsOnAny   bool // distributable layers may carry a urls field as well
 	AliasToOCI  bool // keep same-bytes-two-media-types nodes even when the DESTINATION is digest-addressed (oci)
 	BlobRich    bool // at least six nodes, images with >= 3 layers, artifacts with >= 2 blobs
 }
@@ -588,6 +589,9 @@ func Specs(t *rapid.T, o DAGOpts) []NodeSpec {
 					}
 					lr := pickRef(blobs, "layer")
 					if IsForeignMT(specs[lr.N].MT) && rapid.Bool().Draw(t, "foreignURLs") {
+						lr.URLs = true
+					} else if o.URLsOnAny && !IsForeignMT(specs[lr.N].MT) && rapid.IntRange(0, 4).Draw(t, "layerURLs") == 2 {
+						// an ordinary (distributable) layer may name download locations too
 						lr.URLs = true
 					}
 					s.Layers = append(s.Layers, lr)
